@@ -341,97 +341,112 @@ Definition set_metadata (m : metadata) (s : rstate) : rstate :=
   let s := emit_ind (IMetadataRecv (md_src m) (md_dst m) (md_size m) (md_msgs m)) s in
   set_r_meta (Some m) s.
 
+(* ---- process_pdu, one handler per PDU kind and mode ---- *)
+Definition pdu_filedata_acked (now : N) (offset : N) (data : bytes) (s : rstate) : rstate :=
+  if negb (rphase_eqb (r_phase s) RecvData) then s
+  else
+    let prev_end := match seg_end (r_segs s) with Some e => e | None => 0 end in
+    let s := store_file_data offset data s in
+    let s := emit_ind (IFileSegmentRecv offset (N.of_nat (length data))) s in
+    let s :=
+      match r_nakproc s with
+      | Immediate delay =>
+          if eof_received s then s
+          else
+            let '(c, occ) := c_timeout_occurred now (t_nak (r_timer s)) in
+            let s := upd_nak (fun _ => c) s in
+            if occ then upd_nak (c_restart now) (set_r_naks (get_all_naks s) s)
+            else if prev_end <? offset then
+              if delay =? 0 then set_r_naks (r_naks s ++ [(prev_end, offset)]) s
+              else set_r_delayed (r_delayed s ++ [(new_delay_counter now delay, prev_end, offset)]) s
+            else s
+      | Deferred _ => s
+      end in
+    check_finished now s.
+
+Definition pdu_eof_acked (now : N) (e : eof) (s : rstate) : rstate :=
+  if negb (rphase_eqb (r_phase s) RecvData) then prepare_ack_eof s
+  else
+    let s := set_r_cond (eof_cond e) s in
+    let s := prepare_ack_eof s in
+    let s := set_r_cksum (Some (eof_ck e)) s in
+    let s := emit_ind IEoFRecv s in
+    if cond_eqb (r_cond s) NoError then
+      let s := check_file_size now (eof_size e) s in
+      let s := set_r_fsize (Some (eof_size e)) s in
+      let s := check_finished now s in
+      if has_naks s then
+        let delay := nak_delay (r_nakproc s) in
+        if delay =? 0 then set_r_naks (get_all_naks s) s
+        else set_r_delayed (r_delayed s ++ [(new_delay_counter now delay, 0, eof_size e)]) s
+      else s
+    else cancel_ now s.
+
+Definition pdu_ack_acked (now : N) (a : ack) (s : rstate) : rstate * result :=
+  match r_phase s, ack_dir a, ack_sub a with
+  | RFinished, DirFinished, SubFinished
+  | RCancelled, DirFinished, SubFinished => (shutdown now (upd_ack (c_pause now) s), ROk)
+  | _, _, _ => (s, RUnexpected)
+  end.
+
+Definition pdu_metadata_acked (now : N) (m : metadata) (s : rstate) : rstate :=
+  if is_some (r_meta s) then s
+  else
+    let s := set_metadata m s in
+    let s := set_r_naks (filter (fun x => negb ((fst x =? 0) && (snd x =? 0))) (r_naks s)) s in
+    check_finished now s.
+
+Definition pdu_filedata_unacked (offset : N) (data : bytes) (s : rstate) : rstate :=
+  if negb (rphase_eqb (r_phase s) RecvData) then s
+  else
+    let s := store_file_data offset data s in
+    emit_ind (IFileSegmentRecv offset (N.of_nat (length data))) s.
+
+Definition pdu_ack_unacked (now : N) (a : ack) (s : rstate) : rstate * result :=
+  match ack_dir a, ack_sub a with
+  | DirFinished, SubFinished =>
+      if cond_eqb (ack_cond a) NoError && closure s then (shutdown now s, ROk)
+      else (s, RUnexpected)
+  | _, _ => (s, RUnexpected)
+  end.
+
+Definition pdu_eof_unacked (now : N) (e : eof) (s : rstate) : rstate :=
+  if negb (rphase_eqb (r_phase s) RecvData) then s
+  else
+    let s := set_r_cond (eof_cond e) s in
+    let s := set_r_cksum (Some (eof_ck e)) s in
+    let s := emit_ind IEoFRecv s in
+    if cond_eqb (r_cond s) NoError then
+      let s := check_file_size now (eof_size e) s in
+      let s := set_r_fsize (Some (eof_size e)) s in
+      let s := finalize_receive now s in
+      if closure s then
+        let s := set_r_phase RFinished s in
+        prepare_finished (if cond_eqb (r_cond s) NoError then None else Some (cfg_dst (r_cfg s))) s
+      else shutdown now s
+    else cancel_ now s.
+
+Definition pdu_metadata_unacked (m : metadata) (s : rstate) : rstate :=
+  if is_some (r_meta s) then s else set_metadata m s.
+
 Definition process_pdu (now : N) (p : payload) (s : rstate) : rstate * result :=
   let s := if suspended s then s else upd_inact (c_reset now) s in
   match cfg_mode (r_cfg s) with
   | Acked =>
       match p with
-      | PFileData offset data =>
-          if negb (rphase_eqb (r_phase s) RecvData) then (s, ROk)
-          else
-            let prev_end := match seg_end (r_segs s) with Some e => e | None => 0 end in
-            let s := store_file_data offset data s in
-            let s := emit_ind (IFileSegmentRecv offset (N.of_nat (length data))) s in
-            let s :=
-              match r_nakproc s with
-              | Immediate delay =>
-                  if eof_received s then s
-                  else
-                    let '(c, occ) := c_timeout_occurred now (t_nak (r_timer s)) in
-                    let s := upd_nak (fun _ => c) s in
-                    if occ then upd_nak (c_restart now) (set_r_naks (get_all_naks s) s)
-                    else if prev_end <? offset then
-                      if delay =? 0 then set_r_naks (r_naks s ++ [(prev_end, offset)]) s
-                      else set_r_delayed (r_delayed s ++ [(new_delay_counter now delay, prev_end, offset)]) s
-                    else s
-              | Deferred _ => s
-              end in
-            (check_finished now s, ROk)
-      | PEof e =>
-          if negb (rphase_eqb (r_phase s) RecvData) then (prepare_ack_eof s, ROk)
-          else
-            let s := set_r_cond (eof_cond e) s in
-            let s := prepare_ack_eof s in
-            let s := set_r_cksum (Some (eof_ck e)) s in
-            let s := emit_ind IEoFRecv s in
-            if cond_eqb (r_cond s) NoError then
-              let s := check_file_size now (eof_size e) s in
-              let s := set_r_fsize (Some (eof_size e)) s in
-              let s := check_finished now s in
-              if has_naks s then
-                let delay := nak_delay (r_nakproc s) in
-                if delay =? 0 then (set_r_naks (get_all_naks s) s, ROk)
-                else (set_r_delayed (r_delayed s ++ [(new_delay_counter now delay, 0, eof_size e)]) s, ROk)
-              else (s, ROk)
-            else (cancel_ now s, ROk)
-      | PFinished _ => (s, RUnexpected)
-      | PAck a =>
-          match r_phase s, ack_dir a, ack_sub a with
-          | RFinished, DirFinished, SubFinished
-          | RCancelled, DirFinished, SubFinished => (shutdown now (upd_ack (c_pause now) s), ROk)
-          | _, _, _ => (s, RUnexpected)
-          end
-      | PMetadata m =>
-          if is_some (r_meta s) then (s, ROk)
-          else
-            let s := set_metadata m s in
-            let s := set_r_naks (filter (fun x => negb ((fst x =? 0) && (snd x =? 0))) (r_naks s)) s in
-            (check_finished now s, ROk)
-      | PNakP _ => (s, RUnexpected)
+      | PFileData offset data => (pdu_filedata_acked now offset data s, ROk)
+      | PEof e => (pdu_eof_acked now e s, ROk)
+      | PAck a => pdu_ack_acked now a s
+      | PMetadata m => (pdu_metadata_acked now m s, ROk)
       | PPrompt p => (set_r_prompt (Some p) s, ROk)
-      | PKeepAliveP _ => (s, RUnexpected)
+      | PFinished _ | PNakP _ | PKeepAliveP _ => (s, RUnexpected)
       end
   | Unacked =>
       match p with
-      | PFileData offset data =>
-          if negb (rphase_eqb (r_phase s) RecvData) then (s, ROk)
-          else
-            let s := store_file_data offset data s in
-            (emit_ind (IFileSegmentRecv offset (N.of_nat (length data))) s, ROk)
-      | PAck a =>
-          match ack_dir a, ack_sub a with
-          | DirFinished, SubFinished =>
-              if cond_eqb (ack_cond a) NoError && closure s then (shutdown now s, ROk)
-              else (s, RUnexpected)
-          | _, _ => (s, RUnexpected)
-          end
-      | PEof e =>
-          if negb (rphase_eqb (r_phase s) RecvData) then (s, ROk)
-          else
-            let s := set_r_cond (eof_cond e) s in
-            let s := set_r_cksum (Some (eof_ck e)) s in
-            let s := emit_ind IEoFRecv s in
-            if cond_eqb (r_cond s) NoError then
-              let s := check_file_size now (eof_size e) s in
-              let s := set_r_fsize (Some (eof_size e)) s in
-              let s := finalize_receive now s in
-              if closure s then
-                let s := set_r_phase RFinished s in
-                (prepare_finished (if cond_eqb (r_cond s) NoError then None else Some (cfg_dst (r_cfg s))) s, ROk)
-              else (shutdown now s, ROk)
-            else (cancel_ now s, ROk)
-      | PMetadata m =>
-          if is_some (r_meta s) then (s, ROk) else (set_metadata m s, ROk)
+      | PFileData offset data => (pdu_filedata_unacked offset data s, ROk)
+      | PAck a => pdu_ack_unacked now a s
+      | PEof e => (pdu_eof_unacked now e s, ROk)
+      | PMetadata m => (pdu_metadata_unacked m s, ROk)
       | PFinished _ | PKeepAliveP _ | PPrompt _ | PNakP _ => (s, RUnexpected)
       end
   end.
@@ -446,46 +461,52 @@ Fixpoint expire_delayed (now : N) (l : list (counter * N * N)) : list (N * N) * 
       else ([], (c', a, b) :: t)
   end.
 
-Definition handle_timeout (now : N) (s : rstate) : rstate :=
+(* handle_timeout, part 1: expired delayed-NAK timers *)
+Definition ht_delayed (now : N) (s : rstate) : rstate :=
   let '(expired, rest) := expire_delayed now (r_delayed s) in
   let s := set_r_delayed rest s in
-  let s :=
-    if is_nil expired then s
-    else
-      let q := r_naks s ++ (if is_some (r_meta s) then [] else [(0, 0)]) in
-      let clip e := match r_fsize s with Some f => N.min e f | None => e end in
-      set_r_naks (q ++ flat_map (fun w => gaps (r_segs s) (fst w) (clip (snd w))) expired) s in
-  (* inactivity *)
+  if is_nil expired then s
+  else
+    let q := r_naks s ++ (if is_some (r_meta s) then [] else [(0, 0)]) in
+    let clip e := match r_fsize s with Some f => N.min e f | None => e end in
+    set_r_naks (q ++ flat_map (fun w => gaps (r_segs s) (fst w) (clip (snd w))) expired) s.
+
+(* part 2: the inactivity timer; returns (state, continue?) *)
+Definition ht_inactivity (now : N) (s : rstate) : rstate * bool :=
   let '(ci, lim) := c_limit_reached now (t_inact (r_timer s)) in
   let s := upd_inact (fun _ => ci) s in
-  let '(s, go) :=
-    if lim then
-      if rphase_eqb (r_phase s) RCancelled then (abandon now s, false)
-      else handle_fault now InactivityDetected s
-    else
-      ((if c_occurred ci then upd_inact (c_restart now) s else s), true) in
-  if go then
-    match r_phase s with
-    | RecvData =>
-        if is_immediate (r_nakproc s) || eof_received s then
-          let '(c, occ) := c_timeout_occurred now (t_nak (r_timer s)) in
-          let s := upd_nak (fun _ => c) s in
-          if occ then set_r_naks (get_all_naks s) s else s
-        else s
-    | RFinished =>
-        let '(c, lim) := c_limit_reached now (t_ack (r_timer s)) in
-        let s := upd_ack (fun _ => c) s in
-        if lim then fst (handle_fault now PositiveLimitReached s)
-        else if c_occurred c then upd_ack (c_restart now) (set_fin_flag true s)
-        else s
-    | RCancelled =>
-        let '(c, lim) := c_limit_reached now (t_ack (r_timer s)) in
-        let s := upd_ack (fun _ => c) s in
-        if lim then abandon now s
-        else if c_occurred c then upd_ack (c_restart now) (set_fin_flag true s)
-        else s
-    end
-  else s.
+  if lim then
+    if rphase_eqb (r_phase s) RCancelled then (abandon now s, false)
+    else handle_fault now InactivityDetected s
+  else
+    ((if c_occurred ci then upd_inact (c_restart now) s else s), true).
+
+(* part 3: the NAK timer (receive-data phase) or the ACK timer (Finished / Cancelled) *)
+Definition ht_phase (now : N) (s : rstate) : rstate :=
+  match r_phase s with
+  | RecvData =>
+      if is_immediate (r_nakproc s) || eof_received s then
+        let '(c, occ) := c_timeout_occurred now (t_nak (r_timer s)) in
+        let s := upd_nak (fun _ => c) s in
+        if occ then set_r_naks (get_all_naks s) s else s
+      else s
+  | RFinished =>
+      let '(c, lim) := c_limit_reached now (t_ack (r_timer s)) in
+      let s := upd_ack (fun _ => c) s in
+      if lim then fst (handle_fault now PositiveLimitReached s)
+      else if c_occurred c then upd_ack (c_restart now) (set_fin_flag true s)
+      else s
+  | RCancelled =>
+      let '(c, lim) := c_limit_reached now (t_ack (r_timer s)) in
+      let s := upd_ack (fun _ => c) s in
+      if lim then abandon now s
+      else if c_occurred c then upd_ack (c_restart now) (set_fin_flag true s)
+      else s
+  end.
+
+Definition handle_timeout (now : N) (s : rstate) : rstate :=
+  let '(s, go) := ht_inactivity now (ht_delayed now s) in
+  if go then ht_phase now s else s.
 
 (* ---- one operation of the lock-step interface ---- *)
 Inductive rop :=
@@ -508,3 +529,96 @@ Definition rstep (now : N) (o : rop) (s : rstate) : rstate * result :=
   end.
 
 End Recv.
+
+Arguments r_cfg {FS}.
+Arguments r_nakproc {FS}.
+Arguments r_status {FS}.
+Arguments r_state {FS}.
+Arguments r_phase {FS}.
+Arguments r_meta {FS}.
+Arguments r_segs {FS}.
+Arguments r_recvd {FS}.
+Arguments r_staged {FS}.
+Arguments r_cond {FS}.
+Arguments r_dc {FS}.
+Arguments r_fstat {FS}.
+Arguments r_resps {FS}.
+Arguments r_timer {FS}.
+Arguments r_cksum {FS}.
+Arguments r_fsize {FS}.
+Arguments r_ack {FS}.
+Arguments r_fin {FS}.
+Arguments r_prompt {FS}.
+Arguments r_naks {FS}.
+Arguments r_nak_recvd {FS}.
+Arguments r_delayed {FS}.
+Arguments r_fs {FS}.
+Arguments r_out {FS}.
+Arguments set_r_cfg {FS}.
+Arguments set_r_nakproc {FS}.
+Arguments set_r_status {FS}.
+Arguments set_r_state {FS}.
+Arguments set_r_phase {FS}.
+Arguments set_r_meta {FS}.
+Arguments set_r_segs {FS}.
+Arguments set_r_recvd {FS}.
+Arguments set_r_staged {FS}.
+Arguments set_r_cond {FS}.
+Arguments set_r_dc {FS}.
+Arguments set_r_fstat {FS}.
+Arguments set_r_resps {FS}.
+Arguments set_r_timer {FS}.
+Arguments set_r_cksum {FS}.
+Arguments set_r_fsize {FS}.
+Arguments set_r_ack {FS}.
+Arguments set_r_fin {FS}.
+Arguments set_r_prompt {FS}.
+Arguments set_r_naks {FS}.
+Arguments set_r_nak_recvd {FS}.
+Arguments set_r_delayed {FS}.
+Arguments set_r_fs {FS}.
+Arguments set_r_out {FS}.
+Arguments emit_ind {FS}.
+Arguments upd_inact {FS}.
+Arguments upd_ack {FS}.
+Arguments upd_nak {FS}.
+Arguments r_new {FS}.
+Arguments fin_flag {FS}.
+Arguments set_fin_flag {FS}.
+Arguments suspended {FS}.
+Arguments eof_received {FS}.
+Arguments closure {FS}.
+Arguments is_file_transfer {FS}.
+Arguments has_pdu_to_send {FS}.
+Arguments until_timeout {FS}.
+Arguments generate_report {FS}.
+Arguments send_report {FS}.
+Arguments shutdown {FS}.
+Arguments abandon {FS}.
+Arguments prepare_finished {FS}.
+Arguments cancel_ {FS}.
+Arguments cancel {FS}.
+Arguments suspend {FS}.
+Arguments get_all_naks {FS}.
+Arguments resume {FS}.
+Arguments handle_fault {FS}.
+Arguments prepare_ack_eof {FS}.
+Arguments check_file_size {FS}.
+Arguments has_naks {FS}.
+Arguments store_file_data {FS}.
+Arguments set_metadata {FS}.
+Arguments handle_timeout {FS}.
+Arguments mkR {FS}.
+Arguments emit_pdu {FS}.
+Arguments send_ack_eof {FS}.
+Arguments send_finished {FS}.
+Arguments send_naks {FS}.
+Arguments answer_prompt {FS}.
+Arguments send_pdu {FS}.
+Arguments ht_delayed {FS}.
+Arguments ht_inactivity {FS}.
+Arguments ht_phase {FS}.
+Arguments pdu_ack_acked {FS}.
+Arguments pdu_ack_unacked {FS}.
+Arguments pdu_metadata_unacked {FS}.
+Arguments pdu_filedata_unacked {FS}.
